@@ -127,6 +127,7 @@ def run(tier, seed):
     n = 4000 if tier == 'quick' else 100000
     runner.run_generated(rep, gen(tier), check_case, n, runner.tier_workers(tier),
                          shrink_s=20 if tier == 'quick' else 120)
+    std.run_boundary(rep, tier, check_case, only=['bitmap_', 'subsets_'])
     fuzz.run_structured(rep, 'checks.c07', _fuzz_gen, tier)
     return rep.finish()
 
